@@ -120,15 +120,19 @@ def run(c):
     for nm, g in (("data", g_data), ("rms", g_rms), ("model", g_mod)):
         if np.any(g[bad] != 0) or not np.all(np.isfinite(g)):
             out["oracle"].append("d(log-density)/d(%s) is not identically zero on masked pixels (or not finite)" % nm)
-    # (pixels whose residual is exactly zero are stationary points of every symmetric loss - the gradient legitimately
-    #  vanishes there although the pixel is used; with dyadic test data such coincidences do occur)
-    resid = good & (np.asarray(data, np.float64) != np.asarray(mod, np.float64))
-    if c["loss"] == "cash_loss":        # -(m - d ln m): d/d(data) = ln m, legitimately zero where the model is exactly 1
-        resid = good & (np.asarray(mod, np.float64) != 1.0)
-    if resid.any() and np.any(g_data[resid] == 0):
+    # "an unmasked pixel matters": the gradient with respect to data (and rms) is non-zero on every used pixel.  Stationary points
+    # (residual 0; |residual| = rms for the Gaussian; model = 1 for Cash) are measure-zero exceptions that dyadic test data do hit, so
+    # this assertion is evaluated on a copy of the inputs with non-dyadic, pixel-dependent offsets.
+    off = (np.arange(H * W).reshape(H, W) + 1.0)
+    data2 = (np.asarray(data, np.float64) + 0.0123456789 * off * 1.618033).astype(np.float32)
+    rms2 = (np.asarray(rms, np.float64) * (1.0 + 0.00917 * np.sqrt(off))).astype(np.float32)
+    mod2 = (np.asarray(mod, np.float64) * (1.0 + 0.00431 * np.cbrt(off))).astype(np.float32)
+    g2_mod, g2_data, g2_rms = jax.grad(total, argnums=(0, 1, 2))(jnp.array(mod2), jnp.array(data2), jnp.array(rms2))
+    g2_data, g2_rms = np.asarray(g2_data), np.asarray(g2_rms)
+    if good.any() and np.any(g2_data[good] == 0):
         out["oracle"].append("d(log-density)/d(data) vanishes on an unmasked pixel")
     uses_rms = c["loss"] != "cash_loss"
-    if uses_rms and resid.any() and np.any(g_rms[resid] == 0):
+    if uses_rms and good.any() and np.any(g2_rms[good] == 0):
         out["oracle"].append("d(log-density)/d(rms) vanishes on an unmasked pixel")
     return out
 
